@@ -509,3 +509,51 @@ func FuzzSub_bytes_fuzz(f *testing.F) {
 		}
 	})
 }
+
+// ---------------------------------------------------------------------------------------
+// corpus: the repository's FASTA files, read by poly and by the reference FASTA reader.
+
+type CorpusCase struct {
+	File string `json:"file"`
+	Gz   bool   `json:"gz"`
+}
+
+func checkCorpus(c CorpusCase) error {
+	b, err := os.ReadFile(c.File)
+	if err != nil {
+		return vk.Harnessf("%v", err)
+	}
+	var got []fasta.Fasta
+	if c.Gz {
+		zr, err := gzip.NewReader(bytes.NewReader(b))
+		if err != nil {
+			return vk.Harnessf("%v", err)
+		}
+		var buf bytes.Buffer
+		if _, err := buf.ReadFrom(zr); err != nil {
+			return vk.Harnessf("%v", err)
+		}
+		b = buf.Bytes()
+		if got, err = bounded("ReadGz", func() []fasta.Fasta { return fasta.ReadGz(c.File) }); err != nil {
+			return err
+		}
+	} else if got, err = bounded("Read", func() []fasta.Fasta { return fasta.Read(c.File) }); err != nil {
+		return err
+	}
+	want, ok := referenceParse(b)
+	if !ok {
+		return vk.Harnessf("reference reader rejects %s", c.File)
+	}
+	return same("Read("+c.File+") vs reference reader", got, want)
+}
+
+var subCorpus = vk.Register(&vk.Sub[CorpusCase]{Name: "corpus", Check: checkCorpus, NonTrivial: func(CorpusCase) bool { return true }})
+
+func TestSub_corpus(t *testing.T) {
+	vk.RunEnum(t, subCorpus, "io/fasta/data/base.fasta and uniprot_1mb_test.fasta.gz", true, func(yield func(CorpusCase) bool) {
+		if !yield(CorpusCase{File: "/repo/io/fasta/data/base.fasta"}) {
+			return
+		}
+		yield(CorpusCase{File: "/repo/io/fasta/data/uniprot_1mb_test.fasta.gz", Gz: true})
+	})
+}
